@@ -6,6 +6,65 @@ From Verif.model Require Import LedgerSpec Tracker.
 From Verif.proofs Require Import LedgerSpecProofs.
 Import ListNotations.
 
+(* ---------- "mem is a prefix of l after position R", for any element type ---------- *)
+Definition pfx {A : Type} (l : list A) (R : nat) (mem : list A) : Prop :=
+  mem = firstn (length mem) (skipn R l).
+
+Lemma nth_skipn_add' : forall (A : Type) (d : A) (l : list A) n i, nth i (skipn n l) d = nth (n + i) l d.
+Proof.
+  intros A d l. induction l as [|x l IH]; intros n i; destruct n; simpl; try reflexivity.
+  - now destruct i.
+  - apply IH.
+Qed.
+
+Lemma skipn_skipn_add' : forall (A : Type) (l : list A) a b, skipn a (skipn b l) = skipn (b + a) l.
+Proof.
+  intros A l a b. revert l. induction b as [|b IH]; intro l; simpl; [reflexivity|].
+  destruct l as [|x l]; [now destruct a|apply IH].
+Qed.
+
+Lemma pfx_nil : forall (A : Type) (l : list A) R, pfx l R [].
+Proof. intros. reflexivity. Qed.
+
+Lemma pfx_snoc : forall (A : Type) (d : A) (l : list A) R mem x,
+  pfx l R mem -> nth (R + length mem) l d = x -> R + length mem < length l -> pfx l R (mem ++ [x]).
+Proof.
+  intros A d l R mem x H Hn Hl. unfold pfx in *. rewrite app_length. simpl.
+  rewrite Nat.add_1_r. rewrite (firstn_S_nth _ d (length mem) (skipn R l)).
+  - rewrite <- H. f_equal. rewrite nth_skipn_add'. now rewrite Hn.
+  - rewrite skipn_length. lia.
+Qed.
+
+Lemma pfx_app : forall (A : Type) (l : list A) R mem x,
+  pfx l R mem -> R + length mem = length l -> pfx (l ++ [x]) R (mem ++ [x]).
+Proof.
+  intros A l R mem x H Hl. apply (pfx_snoc A x).
+  - unfold pfx in *. rewrite skipn_app, firstn_app.
+    replace (length mem - length (skipn R l)) with 0 by (rewrite skipn_length; lia).
+    simpl. rewrite app_nil_r. exact H.
+  - rewrite Hl. apply nth_middle.
+  - rewrite app_length. simpl. lia.
+Qed.
+
+Lemma pfx_skip : forall (A : Type) (l : list A) R mem off,
+  pfx l R mem -> off <= length mem -> pfx l (R + off) (skipn off mem).
+Proof.
+  intros A l R mem off H Ho. unfold pfx in *. rewrite skipn_length.
+  rewrite H at 1. rewrite skipn_firstn_comm. f_equal. apply skipn_skipn_add'.
+Qed.
+
+Lemma pfx_map : forall (A B : Type) (f : A -> B) (l : list A) R mem,
+  pfx l R mem -> pfx (map f l) R (map f mem).
+Proof.
+  intros A B f l R mem H. unfold pfx in *. rewrite map_length, skipn_map, firstn_map. now f_equal.
+Qed.
+
+Lemma pfx_len : forall (A : Type) (l : list A) R mem, pfx l R mem -> R <= length l -> R + length mem <= length l.
+Proof.
+  intros A l R mem H HR. unfold pfx in H. assert (H2 := f_equal (@length A) H).
+  rewrite firstn_length, skipn_length in H2. lia.
+Qed.
+
 Section Space.
   Variables K V D : Type.
   Variable keqb : K -> K -> bool.
@@ -772,7 +831,7 @@ Section Space.
   Proof.
     intros hist R mem off k H Ho.
     rewrite (ks_state_walk K V D keqb interp f0 hist R off k), (prefix_firstn _ _ _ _ H Ho).
-    now rewrite walk_lastrec.
+    rewrite <- (walk_lastrec (firstn off mem) k). reflexivity.
   Qed.
 
   Lemma walk_firstn_none : forall ds n k, Walk ds k = None -> Walk (firstn n ds) k = None.
@@ -829,7 +888,7 @@ Section Space.
              ++ constructor; simpl; [exact Hm| |
                   apply Hdis; intro He; unfold cache_wpnf; now rewrite He | exact Hdb].
                 now apply cinv_wpnf.
-             ++ intros v Hx. inversion Hx. now symmetry.
+             ++ intros v Hx. inversion Hx; subst v. now symmetry.
           -- inversion H; subst res s'. clear H.
              split; [|split; [|split; eauto]].
              ++ constructor; simpl; [exact Hm| |
@@ -928,5 +987,218 @@ Section Space.
     - destruct (Walk (firstn (r - R) mem) k) as [d|] eqn:Ew.
       + subst res. split; [intros v' Hx; inversion Hx; now rewrite HS|intro; split; eauto].
       + subst res. now apply Hq.
+  Qed.
+  (* ------------------------------------------------------------------ operations keep the invariant *)
+  Lemma cinvd_ext : forall dl R S S' c, (forall k, S k = S' k) -> CInvD dl R S c -> CInvD dl R S' c.
+  Proof.
+    intros dl R S S' c HS [Hl [Hp Hn]]. split; [|split].
+    - intros e H. destruct (Hl e H) as [H1 [H2 H3]]. split; [exact H1|split; [exact H2|]].
+      intro Hd. rewrite <- HS. now apply H3.
+    - intros e H. destruct (Hp e H) as [H1 [H2 H3]]. split; [exact H1|split; [exact H2|]].
+      intro Hd. rewrite <- HS. now apply H3.
+    - intros k Hk Hd. rewrite <- HS. now apply Hn.
+  Qed.
+
+  Lemma spinv_ext : forall en hist hist' R dbr mem s,
+    (forall k, Sf hist' R k = Sf hist R k) -> (forall k, Sf hist' dbr k = Sf hist dbr k) ->
+    SpInv en hist R dbr mem s -> SpInv en hist' R dbr mem s.
+  Proof.
+    intros en hist hist' R dbr mem s H1 H2 [Hm Hc Hd Hdb]. constructor; [exact Hm| |exact Hd|].
+    - apply (cinvd_ext _ _ (Sf hist R)); [intro k; now rewrite H1|exact Hc].
+    - intro k. now rewrite H2.
+  Qed.
+
+  Lemma sp_newblock_inv : forall en buf hist R dbr mem s recs,
+    SpInv en hist R dbr mem s -> nodup_keys keqb recs = true ->
+    SpInv en hist R dbr (mem ++ [recs]) (sp_newblock K V D keqb interp en buf recs s).
+  Proof.
+    intros en buf hist R dbr mem s recs [Hm Hc Hd Hdb] Hnd. unfold sp_newblock.
+    constructor; simpl; [now apply mods_ok_newblock| | |exact Hdb].
+    - destruct en; [now apply cinv_flush_prune|exact Hc].
+    - intro He. subst en. simpl. now apply Hd.
+  Qed.
+
+  Lemma sp_flush_inv : forall en hist R dbr mem s,
+    SpInv en hist R dbr mem s -> SpInv en hist R dbr mem (sp_flush K V keqb en s).
+  Proof.
+    intros en hist R dbr mem s [Hm Hc Hd Hdb]. unfold sp_flush, sp_setc.
+    constructor; simpl; [exact Hm| | |exact Hdb].
+    - destruct en; [now apply cinv_flush|exact Hc].
+    - intro He. subst en. simpl. now apply Hd.
+  Qed.
+
+  Lemma sp_prune_inv : forall en n hist R dbr mem s,
+    SpInv en hist R dbr mem s -> SpInv en hist R dbr mem (sp_prune K V keqb en n s).
+  Proof.
+    intros en n hist R dbr mem s [Hm Hc Hd Hdb]. unfold sp_prune, sp_setc.
+    constructor; simpl; [exact Hm| | |exact Hdb].
+    - destruct en; [now apply cinv_flush_prune|exact Hc].
+    - intro He. subst en. simpl. now apply Hd.
+  Qed.
+
+  Lemma sp_reset_inv : forall en hist R dbr mem s,
+    SpInv en hist R dbr mem s -> SpInv en hist dbr dbr [] (sp_reset K V s).
+  Proof.
+    intros en hist R dbr mem s [Hm Hc Hd Hdb]. unfold sp_reset, sp_init.
+    constructor; simpl; [apply mods_ok_nil|apply cinv_empty|intro; reflexivity|exact Hdb].
+  Qed.
+
+  Lemma stf_full : forall f ds k,
+    stf f ds (length ds) k = match Walk ds k with Some d => interp d | None => f k end.
+  Proof. intros. now rewrite stf_walk, firstn_all. Qed.
+
+  Notation CommitDb := (sp_commit_db K V D keqb merge vempty is_empty skip strict).
+
+  Lemma sp_commit_inv : forall en hist R mem s off s',
+    SpInv en hist R R mem s -> is_prefix hist R mem -> off <= length mem ->
+    all_nodup (firstn off mem) -> wf_range (Sf hist R) (firstn off mem) ->
+    CommitDb (firstn off mem) s = Some s' ->
+    SpInv en hist R (R + off) mem s'.
+  Proof.
+    intros en hist R mem s off s' [Hm Hc Hd Hdb] Hpre Ho Hnd Hwf H. unfold sp_commit_db in H.
+    destruct (fold_left Commit1 (Compact (firstn off mem)) (Some (s_db K V s))) as [t|] eqn:E; [|discriminate].
+    inversion H; subst s'. constructor; simpl; [exact Hm|exact Hc|exact Hd|].
+    intro k. rewrite (commit_table_ok _ _ _ _ Hnd Hwf Hdb E k), stf_full.
+    now rewrite (Sf_mem hist R mem off k Hpre Ho).
+  Qed.
+
+  Lemma sp_commit_total : forall ds s, strict = false -> exists s', CommitDb ds s = Some s'.
+  Proof.
+    intros ds s Hs. unfold sp_commit_db.
+    destruct (commit_fold_total (Compact ds) (s_db K V s) Hs) as [t Ht]. rewrite Ht. eauto.
+  Qed.
+
+  Lemma in_nodup_aget : forall (A : Type) (l : list (K * A)) k a,
+    NoDup (map fst l) -> In (k, a) l -> Aget k l = Some a.
+  Proof.
+    induction l as [|[k0 a0] l IH]; intros k a Hnd H; simpl in *; [contradiction|].
+    inversion Hnd; subst. destruct H as [H|H].
+    - inversion H; subst. now rewrite kref.
+    - destruct (keqb k k0) eqn:E; [|now apply IH].
+      apply keqb_spec in E. subst k0. exfalso. apply H2. apply in_map_iff. exists (k, a). now split.
+  Qed.
+
+  Lemma post_cache_disabled : forall (c : list (cent K V D)) R ca, fold_left (Postc false R) c ca = ca.
+  Proof.
+    induction c as [|[k [[v n] f]] c IH]; intros R ca; simpl; [reflexivity|].
+    rewrite IH. now destruct (skip f v).
+  Qed.
+
+  Notation Post := (sp_post K V D keqb merge vempty skip).
+
+  Lemma sp_post_inv : forall en hist R mem s off,
+    SpInv en hist R (R + off) mem s -> is_prefix hist R mem -> 1 <= off <= length mem ->
+    all_nodup (firstn off mem) -> wf_range (Sf hist R) (firstn off mem) ->
+    exists s', Post en (R + off) (firstn off mem) s = Some s' /\
+               SpInv en hist (R + off) (R + off) (skipn off mem) s'.
+  Proof.
+    intros en hist R mem s off [Hm Hc Hd Hdb] Hpre Ho Hnd Hwf. unfold sp_post.
+    set (ds := firstn off mem) in *. set (rest := skipn off mem).
+    assert (Hsplit : mem = ds ++ rest) by (symmetry; apply firstn_skipn).
+    rewrite Hsplit in Hm. destruct (mods_ok_post _ _ _ Hm Hnd) as [m' [Hf Hm']]. rewrite Hf.
+    eexists. split; [reflexivity|]. constructor; simpl; [exact Hm'| | |exact Hdb].
+    - (* cache *)
+      assert (HS : forall k, Sf hist (R + off) k = match Walk ds k with
+                                                  | Some d => interp d
+                                                  | None => Sf hist R k end).
+      { intro k. apply (Sf_mem hist R mem off k Hpre). lia. }
+      destruct en.
+      + apply post_cache_fold; [apply compact_nodup| |].
+        * intros k v n f Hin Hs. apply (in_nodup_aget _ _ _ _ (compact_nodup ds)) in Hin.
+          rewrite (compact_get _ _ Hnd) in Hin. destruct (firstrec ds k) as [f'|] eqn:E; [|discriminate].
+          inversion Hin as [[Hv Hn' Hf']]. rewrite HS. destruct (Walk ds k) as [dl|] eqn:E2.
+          -- apply (mergeall_interp _ _ _ _ Hwf E2).
+          -- apply firstrec_none_walk in E2. congruence.
+        * apply (cinvd_enter _ R (R + off) (Sf hist R)); [lia| |exact Hc].
+          intros k Hk. rewrite HS. destruct (firstrec ds k) as [f|] eqn:E.
+          -- destruct (Walk ds k) as [dl|] eqn:E2; [|reflexivity].
+             assert (Hg := compact_get ds k Hnd). rewrite E in Hg.
+             destruct (skip f (mergeall ds k)) eqn:Es.
+             ++ rewrite <- (mergeall_interp _ _ _ _ Hwf E2).
+                apply (skip_ok _ _ _ (firstrec_wf _ _ _ _ Hwf E) Es).
+             ++ exfalso. apply Hk. unfold dirty_keys. apply in_map_iff.
+                exists (k, (mergeall ds k, cnt ds k, f)). split; [reflexivity|].
+                apply filter_In. split; [now apply aget_in|]. simpl. now rewrite Es.
+          -- apply firstrec_none_walk in E. now rewrite E.
+      + rewrite post_cache_disabled. rewrite (Hd eq_refl). apply cinv_empty.
+    - intro He. subst en. rewrite post_cache_disabled. now apply Hd.
+  Qed.
+  (* ------------------------------------------------------------------ well-formed history -> ranges *)
+  Definition wf_all (hist : rounds) : Prop :=
+    forall j k d, j < length hist -> Rfind k (nth j hist []) = Some d -> wfrec (Sf hist j k) d.
+
+  Lemma nth_firstn_lt : forall (A : Type) (d : A) (l : list A) n i, i < n -> nth i (firstn n l) d = nth i l d.
+  Proof.
+    intros A d l. induction l as [|x l IH]; intros n i H; destruct n, i; simpl; try reflexivity; try lia.
+    apply IH. lia.
+  Qed.
+
+  Lemma nth_skipn_add : forall (A : Type) (d : A) (l : list A) n i, nth i (skipn n l) d = nth (n + i) l d.
+  Proof.
+    intros A d l. induction l as [|x l IH]; intros n i; destruct n; simpl; try reflexivity.
+    - now destruct i.
+    - apply IH.
+  Qed.
+
+  Lemma wf_all_range : forall hist R mem off,
+    wf_all hist -> is_prefix hist R mem -> off <= length mem ->
+    wf_range (Sf hist R) (firstn off mem).
+  Proof.
+    intros hist R mem off Hwf Hpre Ho i k d Hi Hr.
+    rewrite <- (prefix_firstn _ _ _ _ Hpre Ho) in *.
+    assert (Hlen : length (firstn off (skipn R hist)) <= length hist - R).
+    { rewrite firstn_length, skipn_length. lia. }
+    assert (Hio : i < off). { rewrite firstn_length in Hi. lia. }
+    rewrite (nth_firstn_lt _ [] _ off i Hio), nth_skipn_add in Hr.
+    replace (stf (Sf hist R) (firstn off (skipn R hist)) i k) with (Sf hist (R + i) k).
+    - apply (Hwf (R + i) k d); [lia|exact Hr].
+    - unfold stf, ks_state. rewrite firstn_firstn. replace (Nat.min i off) with i by lia.
+      rewrite <- fold_left_app, <- firstn_add. reflexivity.
+  Qed.
+
+  Lemma all_nodup_prefix : forall hist R mem off,
+    all_nodup hist -> is_prefix hist R mem -> off <= length mem -> all_nodup (firstn off mem).
+  Proof.
+    intros hist R mem off H Hpre Ho. rewrite <- (prefix_firstn _ _ _ _ Hpre Ho).
+    unfold all_nodup in *. rewrite Forall_forall in *. intros x Hx. apply H.
+    rewrite <- (firstn_skipn R hist). apply in_or_app. right.
+    rewrite <- (firstn_skipn off (skipn R hist)). apply in_or_app. now left.
+  Qed.
+
+  Lemma is_prefix_snoc : forall hist R mem recs,
+    is_prefix hist R mem -> nth (R + length mem) hist [] = recs -> R + length mem < length hist ->
+    is_prefix hist R (mem ++ [recs]).
+  Proof.
+    intros hist R mem recs H Hn Hl. unfold is_prefix in *. rewrite app_length. simpl.
+    rewrite Nat.add_1_r. rewrite (firstn_S_nth _ [] (length mem) (skipn R hist)).
+    - rewrite <- H. f_equal. rewrite nth_skipn_add. now rewrite Hn.
+    - rewrite skipn_length. lia.
+  Qed.
+
+  Lemma skipn_skipn_add : forall (A : Type) (l : list A) a b, skipn a (skipn b l) = skipn (b + a) l.
+  Proof.
+    intros A l a b. revert l. induction b as [|b IH]; intro l; simpl; [reflexivity|].
+    destruct l as [|x l]; [now destruct a|apply IH].
+  Qed.
+
+  Lemma is_prefix_skip : forall hist R mem off,
+    is_prefix hist R mem -> off <= length mem -> is_prefix hist (R + off) (skipn off mem).
+  Proof.
+    intros hist R mem off H Ho. unfold is_prefix in *. rewrite skipn_length.
+    rewrite H at 1. rewrite skipn_firstn_comm. f_equal. apply skipn_skipn_add.
+  Qed.
+
+  Lemma is_prefix_nil : forall hist R, is_prefix hist R [].
+  Proof. intros. reflexivity. Qed.
+
+  Lemma is_prefix_app_hist : forall hist R mem recs,
+    is_prefix hist R mem -> R + length mem = length hist -> is_prefix (hist ++ [recs]) R (mem ++ [recs]).
+  Proof.
+    intros hist R mem recs H Hl. apply is_prefix_snoc.
+    - unfold is_prefix in *. rewrite skipn_app, firstn_app.
+      replace (length mem - length (skipn R hist)) with 0 by (rewrite skipn_length; lia).
+      simpl. rewrite app_nil_r. exact H.
+    - rewrite Hl. apply nth_middle.
+    - rewrite app_length. simpl. lia.
   Qed.
 End Space.
